@@ -14,11 +14,11 @@
     * `AvailableSpace::is_roughly_equal` (cache.rs, `f32::EPSILON`): modelled (Model/Cache.lean); homogeneous only under
       the side condition of `cache_roughly_equal_homogeneous`; refuted without it (`cache_roughly_equal_not_homogeneous`).
       Therefore the tree-level theorem is about the cache-free evaluator `Eval.noCache`.
-    * flexbox.rs `determine_container_main_size` (min/max-content branch) floors `flex_shrink · inner_flex_basis` and
-      `flex_shrink` at the dimensionless `1`: NOT one of the modelled functions (Model/FlexLine.lean models
-      `resolve_flexible_lengths`, `distribute_remaining_free_space`, `calculate_layout_line`), hence outside these
-      theorems; it is the known C04 finding of DESIGN §8.  In the modelled flex-line functions every comparison is
-      length-vs-length, length-vs-0 or flex-factor-sum-vs-1, so they are homogeneous without side condition.
+    * flexbox.rs `determine_container_main_size` (min/max-content branch) used to floor `flex_shrink · inner_flex_basis`
+      at the dimensionless `1` (the former C04 finding; repaired by fix b09946f: the flex shrink *factor* is floored, as
+      in the multiplication below it). The whole flexbox program is now proved homogeneous in Props/EvalFlexScale.lean
+      (`C04Flex.flex_homogeneous`).  In the flex-line functions every comparison is length-vs-length, length-vs-0 or
+      flex-factor-sum-vs-1, so they are homogeneous without side condition.
     * no `THRESHOLD`-style constant occurs in leaf, root, block, the abs-pos copies or the flex-line functions.
 -/
 import TaffyVerif.Lemmas.ScaleLeaf
